@@ -34,6 +34,9 @@ type compileOp struct {
 	Class int
 	Text  string
 	Rules []MRuleDef
+	// what the "mixed history" twins (one builder, one pool) do with this text
+	MixKind  int // 0 full, 1 incremental, 2 removal of MixNames (the text is not used)
+	MixNames []string
 }
 
 var tokRe = regexp.MustCompile(`"[^"\n]*"|//[^\n]*|[A-Za-z_@][A-Za-z0-9_.]*|[0-9]+|:=|\+=|-=|==|!=|>=|<=|&&|\|\||[^\sA-Za-z0-9_]`)
@@ -69,13 +72,27 @@ func (g *G) richRule(id, sal, ver int) string {
 func (g *G) genCompileOp(nNames int, ver *int, valid *[]*compileOp) *compileOp {
 	if len(*valid) > 0 && g.Pct(15) {
 		h := (*valid)[g.Intn(len(*valid))]
-		return &compileOp{Class: txValid, Text: h.Text, Rules: h.Rules}
+		op := &compileOp{Class: txValid, Text: h.Text, Rules: h.Rules}
+		g.mixFor(op, nNames)
+		return op
 	}
 	op := g.genCompileOp1(nNames, ver)
 	if op.Class == txValid {
 		*valid = append(*valid, op)
 	}
+	g.mixFor(op, nNames)
 	return op
+}
+
+func (g *G) mixFor(op *compileOp, nNames int) {
+	op.MixKind = g.Intn(3)
+	if op.MixKind == 2 {
+		for id := 1; id <= nNames+1; id++ {
+			if g.Pct(40) {
+				op.MixNames = append(op.MixNames, strconv.Itoa(id))
+			}
+		}
+	}
 }
 
 func (g *G) genCompileOp1(nNames int, ver *int) *compileOp {
@@ -224,10 +241,15 @@ func RunW3Compile(plan, sched *simrt.Source, trace bool) *RunOut {
 		panicV  [5]string
 		obs     [5]objObs // after the operation: 0 rbF, 1 rbI, 2 new pool, 3 pF, 4 pI
 		calls   [5]*Call
+		// mixed-history twins: a builder and a pool receiving the same full / incremental / removal sequence
+		mixOK    [2]bool
+		mixPanic [2]string
+		mixObs   [2]objObs
+		mixCalls [2]*Call
 	}
 	steps := make([]step, nOps+1)
-	var rbF, rbI *builder.RuleBuilder
-	var pF, pI *engine.GenginePool
+	var rbF, rbI, rbM *builder.RuleBuilder
+	var pF, pI, pM *engine.GenginePool
 	eng := engine.NewGengine()
 	var setupErr error
 	obsBuilder := func(rb *builder.RuleBuilder, c *Call) objObs {
@@ -280,6 +302,13 @@ func RunW3Compile(plan, sched *simrt.Source, trace bool) *RunOut {
 		if pI, setupErr = engine.NewGenginePool(1, 2, engine.SortModel, init.Text, nil); setupErr != nil {
 			return
 		}
+		rbM = builder.NewRuleBuilder(context.NewDataContext())
+		if setupErr = rbM.BuildRuleFromString(init.Text); setupErr != nil {
+			return
+		}
+		if pM, setupErr = engine.NewGenginePool(1, 2, engine.SortModel, init.Text, nil); setupErr != nil {
+			return
+		}
 		st := &steps[0]
 		for k := range st.calls {
 			st.calls[k] = newCall()
@@ -312,6 +341,24 @@ func RunW3Compile(plan, sched *simrt.Source, trace bool) *RunOut {
 				st.obs[2] = obsPool(np, st.calls[2])
 			}
 			st.obs[3], st.obs[4] = obsPool(pF, st.calls[3]), obsPool(pI, st.calls[4])
+			// the mixed-history twins
+			st.mixCalls[0], st.mixCalls[1] = newCall(), newCall()
+			switch op.MixKind {
+			case 0:
+				st.mixOK[0], st.mixPanic[0] = guard(func() error { return rbM.BuildRuleFromString(text) })
+				st.mixOK[1], st.mixPanic[1] = guard(func() error { return pM.UpdatePooledRules(text) })
+			case 1:
+				st.mixOK[0], st.mixPanic[0] = guard(func() error { return rbM.BuildRuleWithIncremental(text) })
+				st.mixOK[1], st.mixPanic[1] = guard(func() error { return pM.UpdatePooledRulesIncremental(text) })
+			default:
+				names := op.MixNames
+				st.mixOK[0], st.mixPanic[0] = guard(func() error { return rbM.RemoveRules(names) })
+				st.mixOK[1], st.mixPanic[1] = guard(func() error { return pM.RemoveRules(names) })
+			}
+			if st.mixPanic[0] != "" || st.mixPanic[1] != "" {
+				return
+			}
+			st.mixObs[0], st.mixObs[1] = obsBuilder(rbM, st.mixCalls[0]), obsPool(pM, st.mixCalls[1])
 		}
 	})
 	fillStats(o, run)
@@ -328,6 +375,11 @@ func RunW3Compile(plan, sched *simrt.Source, trace bool) *RunOut {
 		for k := range steps[i].obs {
 			if c := steps[i].calls[k]; c != nil {
 				steps[i].obs[k].Rules = obsFromEvents(run.Events, c.Idx)
+			}
+		}
+		for k := range steps[i].mixObs {
+			if c := steps[i].mixCalls[k]; c != nil {
+				steps[i].mixObs[k].Rules = obsFromEvents(run.Events, c.Idx)
 			}
 		}
 	}
@@ -447,6 +499,25 @@ func RunW3Compile(plan, sched *simrt.Source, trace bool) *RunOut {
 				// only compared with each other, never with the model
 				incrUnknown = true
 			}
+		}
+		if len(all) > 0 {
+			break
+		}
+		// mixed histories: the builder and the pool were given the same sequence of full builds,
+		// incremental builds and removals, so they must agree on the verdict and on the installed set
+		mk := [...]string{"full", "incremental", "remove"}[op.MixKind]
+		for k, pv := range st.mixPanic {
+			if pv != "" {
+				add("compile-panic", [...]string{"builder", "pool"}[k]+"-"+mk, txNames[op.Class], fmt.Sprintf("%s: mixed history (%s): panicked: %s", where, mk, firstLine(pv)))
+			}
+		}
+		if len(all) > 0 {
+			break
+		}
+		if st.mixOK[0] != st.mixOK[1] {
+			add("entry-points-disagree", "mixed-history-"+mk, "", fmt.Sprintf("%s: in a mixed history the builder's %s returned ok=%v and the pool's ok=%v\n%s", where, mk, st.mixOK[0], st.mixOK[1], op.Text))
+		} else if a, b := st.mixObs[0].key(), st.mixObs[1].key(); a != b {
+			add("entry-points-install-different-sets", "mixed-history-"+mk, "", fmt.Sprintf("%s: after the same history of full / incremental / removal operations the builder holds [%s] and the pool [%s] (last operation: %s)\n%s", where, a, b, mk, op.Text))
 		}
 		if len(all) > 0 {
 			break
